@@ -14,6 +14,7 @@ import (
 	pipeio "github.com/mgtv-tech/redis-GunYu/pkg/io/pipe"
 	"github.com/mgtv-tech/redis-GunYu/pkg/log"
 	usync "github.com/mgtv-tech/redis-GunYu/pkg/sync"
+	"github.com/mgtv-tech/redis-GunYu/pkg/verifhook"
 )
 
 var _ Channel = &MemoryChannel{}
@@ -301,6 +302,7 @@ func (mc *MemoryChannel) appendAof(writer *MemoryAofWriter, buf []byte) (int, er
 		if mc.logSize > 0 {
 			remaining := mc.logSize - int64(seg.blob.len())
 			if remaining <= 0 && seg.blob.len() > 0 {
+				verifhook.Point("memch", "rotate", seg.left)
 				next := newMemorySegment(seg.right(), mc)
 				mc.aofSegs = append(mc.aofSegs, next)
 				writer.setCurrentSegment(next)
